@@ -29,7 +29,7 @@ def load_sidecars(prop):
         for k, v in vars(m).items():
             if k.isupper() and isinstance(v, (str, int, float)):
                 api.REG.consts[k] = v
-    work = os.path.join(ROOT, "evidence", "work", prop + ".extract.json")
+    work = os.path.join(os.environ.get("VERIF_EVIDENCE_DIR", os.path.join(ROOT, "evidence")), "work", prop + ".extract.json")
     if os.path.exists(work):
         api.REG.consts.update(json.load(open(work)).get("consts", {}))
     return api.REG
